@@ -78,6 +78,9 @@ theorem step_histEq {s : St} (op : Op) (h : Inv s) (he : HistEq s) : HistEq (ste
   | showSt => exact he
   | react rs => exact he
   | popReact => exact he
+  | setTelnet => exact he
+  | telSet t lm => exact he
+  | flushQ => simp only [step]; split <;> first | exact he | exact viaFlush
 
 /-- state form of `delivered_is_ordered_prefix_image`: after every run, the bytes accepted by send() followed by the ring
 contents are exactly the bytes ever stored, in the order they were stored - nothing duplicated, nothing reordered. -/
@@ -196,6 +199,9 @@ theorem step_histR_of_not_write {s : St} (h : Inv s) (op : Op) (hw : ∀ v d, op
   | showSt => rfl
   | react rs => rfl
   | popReact => rfl
+  | setTelnet => rfl
+  | telSet t lm => rfl
+  | flushQ => simp only [step]; split <;> first | rfl | exact viaFlush
 
 /-- **`delivered_is_ordered_prefix_image`.**  For every send script and every list of operations there are per-write prefix
 lengths `ns` - one for each text written, each the whole text unless the connection was unusable or the ring was still
